@@ -885,7 +885,9 @@ func c16Paths(p *core.Program, r *core.Report) {
 			// every path through ApplyConfig looks at each of the four limits (assigns it, or compares it
 			// with the configured value to find it unchanged): no early way out after the first one
 			limits := []string{"logsinkQueueSize", "logsinkMaxWaitTime", "logsinkMaxBufferSize", "logsinkZipMinSize"}
+			acIn := newInliner(p, fi, nil)
 			ps, _ := paths.Enumerate(fi.Decl.Body, paths.Config{Info: fi.Pkg.TypesInfo,
+				Inline: acIn.Body, // helpers such as resizeQueue(n) are followed
 				Cond: func(c ast.Expr, v bool) *paths.Event {
 					s := z.norm(c)
 					for _, l := range limits {
